@@ -39,7 +39,8 @@ ASSUMPTIONS = [
     "the model is written for the code as repaired by fixes/C11-phase2-aspect.diff",
     "absolute scale: dies in other units (binary factors: exact, compared with the model up to n = 130; decimal factors and larger "
     "counts: direct oracle only, the pieces must lie inside the region they were cut from within 1e-9 of the die's extent, overlap by "
-    "at most (1e-9 extent)^2 and cover each former region within 1e-9 of its area; counts, tags and aspect ratios exactly on the floats); "
+    "at most (1e-9 extent)^2 and cover each former region within 1e-9 of its area; counts and tags exactly, aspect ratios within a "
+    "relative 1e-9 of the limit (exactly for binary factors): the sides of a piece cut from decimal coordinates are one ulp off the exact halves); "
     "process state: when another die was built first (it defines the class-wide Rectangle tolerances) or the coordinates are decimal, the "
     "refinement is judged only if the regions it starts from do not overlap (how a die is decomposed under foreign tolerances is C01 / C20); "
     "the other die is up to 10^13 times larger or smaller (foreign distance tolerance up to 100 times the judged die's extent: its "
@@ -775,7 +776,9 @@ def check_refinement(before, after, r, n, rel=F(0)):
         if abs(got[i] - area) > rel * area:
             return "the refined regions do not cover a former refinable region exactly"
     for a in after:
-        if aspect(a) > core.frac(r):
+        # decimal coordinates: the sides of a piece are differences of rounded positions, one ulp off the exact halves, so the
+        # exact quotient of the two floats may exceed a limit the code's rounded quotient meets (0.03 x 0.02: 1.5000000000000002)
+        if aspect(a) > core.frac(r) * (1 + rel):
             return f"aspect ratio {float(aspect(a))} exceeds the limit {float(r)}"
     return None
 
